@@ -91,6 +91,13 @@ type Server struct {
 	// Unversioned: lists carry no collection resourceVersion (legal; client-go's
 	// fake clientsets do this), and a watch from "" starts at the present
 	Unversioned bool
+	// listGate: while non-nil, List calls wait on it before they take their
+	// snapshot (HoldLists / the returned release function)
+	listGate chan struct{}
+	// SnapshotAtStart: a List call answers with the content and version the
+	// server had when the call STARTED (and returns after its latency): the
+	// list is then older than what the watch has delivered meanwhile
+	SnapshotAtStart bool
 	// AfterSnapshot runs inside the n-th List call right after its snapshot was
 	// taken (no lock held): changes it makes are newer than the list and
 	// reach the client through the watch at the moment the list returns
@@ -165,6 +172,23 @@ func (s *Server) Set(ns, nm int, labels kobj.Map, node int) *kobj.Obj {
 	s.objects[k] = o
 	s.append(LogEntry{s.version, t, o})
 	return o
+}
+
+// HoldLists makes List calls wait (after their latency) until the returned
+// function is called.
+func (s *Server) HoldLists() (release func()) {
+	s.mu.Lock()
+	defer s.mu.Unlock()
+	g := make(chan struct{})
+	s.listGate = g
+	return func() {
+		s.mu.Lock()
+		if s.listGate == g {
+			s.listGate = nil
+		}
+		s.mu.Unlock()
+		close(g)
+	}
 }
 
 // MarkTerminating gives an existing object a deletionTimestamp (a new version,
@@ -274,6 +298,14 @@ func (s *Server) List(ctx context.Context, _ metav1.ListOptions) (runtime.Object
 		s.mu.Unlock()
 	}
 
+	var early []*kobj.Obj
+	earlyV := -1
+	if s.SnapshotAtStart {
+		s.mu.Lock()
+		earlyV = s.version
+		early = s.objectsLocked()
+		s.mu.Unlock()
+	}
 	if kind == ListHang {
 		<-ctx.Done()
 		finish(-1)
@@ -287,11 +319,25 @@ func (s *Server) List(ctx context.Context, _ metav1.ListOptions) (runtime.Object
 			return nil, ctx.Err()
 		}
 	}
+	s.mu.Lock()
+	gate := s.listGate
+	s.mu.Unlock()
+	if gate != nil {
+		select {
+		case <-gate:
+		case <-ctx.Done():
+			finish(-1)
+			return nil, ctx.Err()
+		}
+	}
 	// the snapshot is taken when the call completes
 	s.mu.Lock()
 	v := s.version
 	objs := s.objectsLocked()
 	s.mu.Unlock()
+	if earlyV >= 0 {
+		v, objs = earlyV, early
+	}
 	finish(v)
 	if s.AfterSnapshot != nil {
 		s.AfterSnapshot(n)
